@@ -52,6 +52,16 @@ PROPS['C12'] = dict(
     level_note='NOT decided: exactly-once start, serial isolation and the job bound are properties of asyncio interleavings; TIMEOUT killing involves subprocesses and signals. Assumed: loggers do not touch the counters; time.time opaque; Python extended-slice semantics (checked bounded); get_tests plumbing around the slice step.',
     not_decided=['each selected test started exactly once per repetition', 'no non-parallel test overlaps another test', 'never more running tests than jobs', 'TIMEOUT when the limit passes and the test is then terminated', 'printed totals / testlog.json text'],
 )
+PROPS['C07'] = dict(
+    modules=['specs.options', 'contracts.options', 'lemmas.options'],
+    bounded=['bounded.options'],
+    level='proof',
+    design_ref='DESIGN.md §4 C07',
+    technique='deductive: VCs from the real AST of the validate_value family, set_value and get_option_and_value_for (opaque objects) + sidecar contracts; the precedence merges (initialize_from_*), buildtype expansion and set_option are bounded-exhaustive over all 2^8 source subsets',
+    level_text='Validity: every validate_value (string, boolean, integer with range, combo/feature, string array with choices) is proved to reject exactly the values violating type/choices/range and to return a valid value; set_value stores the validated value. Resolution: augment > yielding parent > own value is proved on the real get_option_and_value_for. The eight-step precedence itself is checked exhaustively over all source subsets through the real OptionStore (bounded stand-in).',
+    level_note='Assumed: listify_array_value, key normalisation and option lookup (trusted contracts); int() of a string through the abstract py_int_ok/py_int_val; mlog calls are effects. NOT proved (bounded only): initialize_from_top_level_project_call / initialize_from_subproject_call, set_option incl. buildtype and prefix dependents.',
+    not_decided=['machine-file parsing, optinterpreter and Environment plumbing', 'cross-source interaction of buildtype with explicit debug/optimization (not stated)'],
+)
 
 # properties with no check yet or outside the technique, each with the reason
 NOT_APPLICABLE = {
